@@ -996,3 +996,10 @@ v("d78-polars-coalesce-exempts-right-keys", "C16", PM,
 
 v("d79-step-numbering-ignores-table-names", "C15", SM,
   "                temp_id_source[0] = max(\n                    temp_id_source[0], int(trailing_number.group(1)) + 1\n                )\n", "                pass\n")
+
+v("d80-null-keys-left-in-merge", "C16", PB,
+  "                null_key_left = left.loc[left_has_null_key, :]\n                left = left.loc[~left_has_null_key, :]\n", "                null_key_left = left.loc[left_has_null_key, :]\n")
+v("d80-null-key-rows-not-reattached", "C16", PB,
+  "        if (null_key_right is not None) and (how in [\"right\", \"outer\"]):\n            unmatched.append(null_key_right.reindex(columns=res.columns))\n", "")
+v("d80-null-key-rows-reattached-for-inner", "C16", PB,
+  "        if (null_key_left is not None) and (how in [\"left\", \"outer\"]):", "        if (null_key_left is not None) and (how in [\"left\"]):")
